@@ -1,4 +1,6 @@
 
+val xorb : bool -> bool -> bool
+
 val negb : bool -> bool
 
 type nat =
